@@ -9,6 +9,7 @@ From Qryn Require Import model.Ingest model.PushHandler model.IngestSpec model.I
   model.IngestConfirmSched proofs.IngestConfirmInv proofs.IngestConfirmLive model.PushRead proofs.PushReadProofs
   model.IngestConfirmFair proofs.IngestConfirmFairProofs model.IngestBridge proofs.IngestBridgeProofs.
 From Qryn Require model.SeriesIndex proofs.PushReadIndex.
+From Qryn Require Import model.IngestSwap2 proofs.IngestSwap2Proofs.
 From Qryn Require model.PromiseHB proofs.PromiseHBProofs.
 Import ListNotations.
 
@@ -479,3 +480,17 @@ Theorem fast_path_refuted : exists sched s' ts',
   PromiseHB.pend s' = 0%Z /\ PromiseHB.closed s' = false /\ PromiseHB.outs ts' = [[0; 0]]%nat.
 Proof. exact PromiseHBProofs.fast_path_refuted. Qed.
 Print Assumptions fast_path_refuted.
+
+(* Round 6 (seeded C02-f).  ack_sound depends on swapBuffers being ONE critical section: over the variant of the model in which the waiting
+   promises are taken in a first hold of the mutex and the columns are swapped in a second one (model/IngestSwap2.v), the statement is false --
+   a request served between the two halves is acknowledged with the outcome of the NEXT block while its row travelled in the one being
+   taken.  The variant's runs without such a window are runs of the unchanged model (props/C02.v windowless_two_step_runs_are_sound); that the
+   source has the one region is model_steps_are_the_critical_sections + the regenerated regions of every run, and the harness operation
+   mreq puts a request into the window of the real service. *)
+Theorem ack_sound_two_step_swap_refuted :
+  ~ (forall cfg n tr x es,
+       forallb act2_wf tr = true ->
+       grun2 (ginit2 cfg n) tr = Some (x, es) ->
+       run_mon (amon_step true) (amon_init (length cfg)) es <> None).
+Proof. exact IngestSwap2Proofs.ack_sound_two_step_swap_refuted. Qed.
+Print Assumptions ack_sound_two_step_swap_refuted.
